@@ -142,7 +142,10 @@ P = {
        "body-and-unlock steps for every other call), over all trees, request streams and interleavings: cap bounds with SetCap "
        "anywhere (granted in period p <= the largest cap in force during p, for the limiter and each ancestor; without SetCap so "
        "far <= cap), Go-int exactness up to MaxInt, lastUsed_spec, exactly-once answers, nil only with a logged grant, never a "
-       "grant on a closed limiter, immediate errors, FIFO service, Close marks the subtree and fails pending requests, "
+       "grant on a closed limiter, immediate errors incl. an amount above ANY cap of the chain "
+       "(use_above_chain_cap_fails_at_once), a queued request fails at the next tick after SetCap on its limiter or an ancestor, "
+       "FIFO service with every tick answering the head of the queue, every_request_answered (on runs on which ticks keep "
+       "being served every waiting request gets exactly one answer), Close marks the subtree and fails pending requests, "
        "lock_discipline (mutual exclusion; the goroutine blocked on done does not hold the lock), close_returns (no reachable "
        "state is deadlocked; any holder can release the lock), ticker_never_blocked, api_call_returns, termination of Close under "
        "scheduler-only fairness (holders run, mutex fair to the ticker, select fair) with a witness run (fair_run_exists), and the "
@@ -154,8 +157,9 @@ P = {
        "inconclusive, never failed; answered/glog/capMax are history fields written by the model in the same step as the action "
        "they record (that the code's critical sections do the same is the transcription, checked by the tie); answer channels "
        "are not modelled as channels; read locks are treated as exclusive; LastUsed is specified for limiters still linked into "
-       "the tree; a black-box fallback build (private identifiers renamed) observes ticks through sentinel child limiters and "
-       "skips the window area.",
+       "the tree; TicksServed (ticks keep being served until the final drain) is an assumption about time and the scheduler, not "
+       "derived from the fairness hypotheses; a black-box fallback build (private identifiers renamed) observes ticks through "
+       "the public API on a hidden limiter that the model mirrors, and skips the window area.",
   ref="DESIGN.md section 5 C16, section 0"),
  "C04": dict(
   text="55 Lean theorems about the executable byte-level model of String/StringWithSign/Comma/CommaWithSign/FromString (plain "
